@@ -4,6 +4,8 @@ package handlers
 // and some globs; the file contents that come back must be exactly those of the files Ref allows.
 
 import (
+	"sync/atomic"
+	"sync"
 	"encoding/base64"
 	"fmt"
 	"os"
@@ -26,8 +28,12 @@ type c08sCase struct {
 func c08sLayout(root string) {
 	os.MkdirAll(filepath.Join(root, "pub/sub"), 0755)
 	os.MkdirAll(filepath.Join(root, "priv"), 0755)
-	for _, f := range []string{"pub/a.log", "pub/secret1.log", "priv/key.txt", "pub/sub/deep.log"} {
-		os.WriteFile(filepath.Join(root, f), []byte("CONTENT-OF:"+f+"\nsecond line of "+f+"\n"), 0644)
+	for i, f := range []string{"pub/a.log", "pub/secret1.log", "priv/key.txt", "pub/sub/deep.log"} {
+		content := "CONTENT-OF:" + f + "\nsecond line of " + f + "\n"
+		if i%2 == 1 {
+			content = strings.TrimSuffix(content, "\n") // some files end without a newline
+		}
+		os.WriteFile(filepath.Join(root, f), []byte(content), 0644)
 	}
 	os.Symlink("a.log", filepath.Join(root, "pub/link_a"))
 	os.Symlink("../priv/key.txt", filepath.Join(root, "pub/link_out"))
@@ -37,17 +43,18 @@ func c08sLayout(root string) {
 	syscall.Mkfifo(filepath.Join(root, "pub/fifo"), 0644)
 }
 
-var c08sN int
+var c08sN int64
+var c08sCfg sync.RWMutex
 
 // c08sSession cats one path/glob and returns the set of files whose content was disclosed.
 func c08sSession(u *user.User, req string) (disclosed []string, problem string) {
 	h := NewServerHandler(u, make(chan struct{}, 8), make(chan struct{}, 8))
 	// the verdict must not depend on how the request is worded: command (cat / grep), and the output options a client
 	// may send along (all of them are under the client's control, also on a remote server)
-	c08sN++
+	form := int(atomic.AddInt64(&c08sN, 1))
 	forms := []string{"cat:quiet=true %s regex:noop ", "cat:quiet=true:serverless=true %s regex:noop ", "cat:quiet=true:plain=true %s regex:noop ",
 		"grep:quiet=true %s regex:default .", "grep:serverless=true:plain=true:quiet=true %s regex:default CONTENT|second", "cat:quiet=true:before=1:after=1 %s regex:noop "}
-	payload := fmt.Sprintf(forms[c08sN%len(forms)], req)
+	payload := fmt.Sprintf(forms[form%len(forms)], req)
 	h.Write([]byte(fmt.Sprintf("protocol 4.1 base64 %s;", base64.StdEncoding.EncodeToString([]byte(payload)))))
 	seen := map[string]bool{}
 	buf := make([]byte, 64*1024)
@@ -120,13 +127,37 @@ func TestC08Session(t *testing.T) {
 	}
 	var bads []bad
 	evals := 0
+	// another user of the same server, allowed to read everything, keeps reading the files the tested user may not see:
+	// what one session reads must never surface in another one
+	stopAdmin := make(chan struct{})
+	adminDone := make(chan struct{})
+	go func() {
+		defer close(adminDone)
+		for {
+			select {
+			case <-stopAdmin:
+				return
+			default:
+			}
+			c08sCfg.RLock() // the rules (global configuration) are only replaced between two of these sessions
+			if admin, err := user.New("c08admin", "harness"); err == nil {
+				for _, f := range []string{"priv/key.txt", "pub/secret1.log", "pub/a.log"} {
+					c08sSession(admin, root+"/"+f)
+				}
+			}
+			c08sCfg.RUnlock()
+		}
+	}()
+	defer func() { close(stopAdmin); <-adminDone }()
 	for _, c := range cases {
 		rules := []string{}
 		for _, r := range c.Rules {
 			rules = append(rules, strings.ReplaceAll(r, "ROOT", root))
 		}
+		c08sCfg.Lock()
 		config.Server.Permissions.Default = rules
-		config.Server.Permissions.Users = nil
+		config.Server.Permissions.Users = map[string][]string{"c08admin": {"^/.*"}}
+		c08sCfg.Unlock()
 		u, err := user.New("vuser", "harness")
 		if err != nil {
 			continue
